@@ -354,8 +354,8 @@ fn try_dgst(input: &Value) -> Option<Value> {
                     if let Some(peer) = connector.peer(c) {
                         if let Some(id) = id_of_request(&peer, 1) {
                             let q = if op["op"] == "reply" { 1 } else { 11 };
-                            // stream answers have no answer record: "body" tells the legs apart
-                            let f = json!({"id": id, "qr": true, "q": q, "rcode": 0, "body": false, "tc": false, "ka": -1});
+                            // stream answers carry a keepalive option: it tells the legs apart
+                            let f = json!({"id": id, "qr": true, "q": q, "rcode": 0, "body": true, "tc": false, "ka": 7});
                             peer.push_frame(&build_peer_msg(&f));
                         }
                     }
@@ -393,11 +393,13 @@ fn try_dgst(input: &Value) -> Option<Value> {
                 }
                 done.push(match o.get("ok") {
                     Some(f) => json!({"ok": true,
-                                      "via": if f["body"] == json!(true) { "udp" } else { "tcp" },
-                                      "tc": f["tc"], "t": t_done}),
+                                      "via": if f["ka"].as_i64().unwrap_or(-1) < 0 { "udp" } else { "tcp" },
+                                      "tc": f["tc"],
+                                      "rcode": if f["ka"].as_i64().unwrap_or(-1) < 0 { f["rcode"].clone() } else { json!(0) },
+                                      "t": t_done}),
                     None => json!({"ok": false,
                                    "via": if connector.calls() > 0 { "tcp" } else { "udp" },
-                                   "tc": false, "t": t_done}),
+                                   "tc": false, "rcode": 0, "t": t_done}),
                 });
             }
             let mut p = json!({"udp": udp, "nconnect": connector.calls(), "written": written, "done": done});
